@@ -226,6 +226,7 @@ pub fn run(ctx: &Ctx, rep: &mut Report) {
         return;
     }
     let is_async_prop = prop == "C08";
+    let mut susp: std::collections::HashSet<(char, usize)> = std::collections::HashSet::new();
     ctx.for_cases(rep, |idx, rep| {
         let mut rng = Rng::derive(ctx.seed, idx, hash_str(&prop) ^ hash_str(&ctx.sub));
         let (si, mut b, mode): (usize, Built, &str);
@@ -283,6 +284,40 @@ pub fn run(ctx: &Ctx, rep: &mut Report) {
             b = Built { case: c, images, desc: format!("combo {} bits {:b}", combo, bits) };
             mode = if is_async_prop { "async" } else { "blocking" };
             rep.count("compose-cases");
+        } else if ctx.sub == "sched" {
+            // C08: every schedule prefix of 10 polls x 8 Pending patterns for tiny configurations
+            let combo = idx >> 13;
+            let bits = idx & 0x1fff;
+            let mut crng = Rng::derive(ctx.seed, combo, 0x5C);
+            si = shapes[crng.below(shapes.len() as u64) as usize];
+            let d = &ctx.zoo[si].desc;
+            let (msgs, images) = gen_msgs(d, &mut crng, 1 + (combo % 2) as usize, 3);
+            let n: usize = images.iter().map(|i| i.len()).sum();
+            let largest = images.iter().map(|i| i.len()).max().unwrap_or(0).max(d.min_size());
+            let mut c = base_case(msgs, largest, n);
+            c.capacity = 1 + (combo % 3) as usize;
+            c.schedule = (0..10).map(|i| ((bits >> i) & 1) as u8).collect();
+            let pat = (bits >> 10) & 7;
+            let mk = |period: usize, phase: usize, len: usize| (0..len).map(|i| ((i + phase) % period == 0) as u8).collect::<Vec<u8>>();
+            let (pw, pr): (Vec<u8>, Vec<u8>) = match pat {
+                0 => (vec![], vec![]),
+                1 => (mk(1, 0, 3), vec![]),
+                2 => (vec![], mk(1, 0, 3)),
+                3 => (mk(2, 0, 12), mk(2, 1, 12)),
+                4 => (mk(2, 1, 12), mk(2, 0, 12)),
+                5 => (mk(3, 0, 18), mk(3, 0, 18)),
+                6 => (mk(1, 0, 2), mk(1, 0, 2)),
+                _ => (mk(3, 1, 18), mk(2, 0, 12)),
+            };
+            c.pend_w = pw;
+            c.pend_r = pr;
+            c.flush_pending = (combo % 2) as usize;
+            c.wake_driven = combo % 4 >= 2;
+            c.monitored = combo % 2 == 0;
+            c.max_polls = 50_000;
+            b = Built { case: c, images, desc: format!("combo {} schedule {:010b} pending pattern {}", combo, bits & 0x3ff, pat) };
+            mode = "async";
+            rep.count("sched-cases");
         } else if ctx.sub == "enum" {
             // C09: every stream position x fault kind x (one-shot | persistent) x side x mode for a small message sequence
             let combo = idx / 3072;
@@ -459,6 +494,21 @@ pub fn run(ctx: &Ctx, rep: &mut Report) {
             rep.add("polls", t.polls as u64);
             rep.max("max:polls-to-completion", t.polls as u64);
             rep.add("injected-pendings", t.wlog.events.iter().filter(|e| e.2 == -2).count() as u64);
+            // suspension points: (pipe call kind, stream position at which the task was suspended)
+            let mut pos = 0usize;
+            for e in &t.wlog.events {
+                if e.2 > 0 && e.0 == 'w' {
+                    pos += e.2 as usize;
+                }
+                if e.2 == -2 {
+                    rep.count(match e.0 {
+                        'w' => "pending:poll_write",
+                        'r' => "pending:poll_read",
+                        _ => "pending:poll_flush",
+                    });
+                    susp.insert((e.0, pos.min(255)));
+                }
+            }
         }
         rep.key(mix(
             hash_str(vt.name)
@@ -489,8 +539,10 @@ pub fn run(ctx: &Ctx, rep: &mut Report) {
                 );
             } else if is_harness_panic(p) {
                 rep.harness_error(format!("idx={} {}", idx, p));
-            } else if prop == "C09" && p.contains("!self.poisoned") || p.contains("!self.owner.poisoned") {
-                // documented refusal of a poisoned sender / receiver
+            } else if prop == "C09" && case.wfault.is_some() && (p.contains("!self.poisoned") || p.contains("!self.owner.poisoned")) {
+                // documented refusal: a sender that wrote part of a message refuses further traffic
+                // (only write faults can poison; sender and receiver have separate buffers)
+                let _ = side;
                 rep.count("poisoned-refusal");
             } else {
                 rep.violation(format!("{}|panic|{}|{}", prop, side, panic_site(p)), format!("{} ({}): {} panicked: {}", vt.name, mode, side, p), cj(&t));
@@ -704,4 +756,5 @@ pub fn run(ctx: &Ctx, rep: &mut Report) {
         }
         rep.sample(4, || cj(&t).set("expected", J::s(format!("{:?}", expected_c10))));
     });
+    rep.add("max:distinct-suspension-points(kind,stream-position)", susp.len() as u64);
 }
